@@ -14,7 +14,9 @@ c_Bounds == <<
     <<Sc(8), Rg(-5, 4, 9)>>,             \* scalar + finer range
     <<Sc(16), Rg(-5, 4, 9)>>,            \* same range, other scalar (wildcard cache key)
     <<Rg(3, 8, 3), Sc(0)>>,              \* range + scalar
-    <<Rg(67, 8, 2), Rg(1, 8, 2)>> >>     \* wholly outside along axis 1
+    <<Rg(67, 8, 2), Rg(1, 8, 2)>>,       \* wholly outside along axis 1
+    <<Sc(13), Rg(1, 8, 4)>>,             \* non-integer scalar (1.625)
+    <<Rg(-7, 8, 5), Sc(-5)>> >>          \* non-integer scalar outside (-0.625)
 c_Whats == {"c1", "c2", "s1", "s2"}
 view == <<frame, hist>>
 ====
